@@ -1,4 +1,4 @@
-import TorchDataVerif.Proofs.MPMapSnap
+import TorchDataVerif.Proofs.MPMapLive
 /-!
 # MP, map-style: consequences of the invariants, in the form the property theorems use
 -/
@@ -15,11 +15,17 @@ section Map
 variable (c : Cfg) (hv : c.Valid) (hm : c.iterable = false) (hio : c.inOrder = true)
 include hv hm hio
 
-theorem reach_map (as : List Action) (s : State) (hnr : NoReset as) (hr : run c (init c) as = some s)
-    (hd : ¬ died s) : InvM c s ∧ SnapM c s := by
-  rcases run_invM_snapM c as (init c) s hv hm hio hnr (Or.inl ⟨init_invM c hv hm hio, init_snapM c hv hm hio⟩) hr with h | h
+theorem reach_map_all (as : List Action) (s : State) (hnr : NoReset as) (hr : run c (init c) as = some s)
+    (hd : ¬ died s) : InvM c s ∧ SnapM c s ∧ (s.shutdown = false → AcctM c s) := by
+  rcases run_map_all c as (init c) s hv hm hio hnr
+    (Or.inl ⟨init_invM c hv hm hio, init_snapM c hv hm hio, fun _ => init_acctM c hv hm hio⟩) hr with h | h
   · exact h
   · exact absurd h hd
+
+theorem reach_map (as : List Action) (s : State) (hnr : NoReset as) (hr : run c (init c) as = some s)
+    (hd : ¬ died s) : InvM c s ∧ SnapM c s :=
+  let h := reach_map_all c hv hm hio as s hnr hr hd
+  ⟨h.1, h.2.1⟩
 
 end Map
 
